@@ -386,6 +386,56 @@ def sec_sv_projectors(rep):
     c05.sec_rge_shared(rep)
 
 
+def sec_real_runs(rep, tier):
+    """BOUNDED companions on real runs: the four relations of the statement between the operators of
+    two real runs (or between rows of one), per entry."""
+    import numpy as np
+
+    pts = [{"x": 0.1, "Q2": 20.0}, {"x": 0.3, "Q2": 3000.0}]
+    thorough = tier == "thorough"
+    schemes = [("ZM-VFNS", 5, 1)] + ([("FFNS", 3, 1), ("FFNS", 4, 2), ("ZM-VFNS", 4, 2)] if thorough else [])
+    for scheme, nf_ff, pto in schemes:
+        th = dict(FNS=scheme, NfFF=nf_ff, PTO=pto, PTODIS=pto)
+        tag = f"{scheme} NfFF={nf_ff} pto={pto}"
+        names = ["F2_total", "FL_total"] + (["F2_charm", "g1_total"] if thorough else [])
+        # (a) Z decoupled
+        H.bounded_ob(rep, f"C13/bounded/real run/{tag}/NC with MZ=inf = EM ({', '.join(names)})", lambda: max((H.ops_deviation(a[n], b[n]) for a, b in [(H.real_ops(dict(th, MZ=float("inf")), dict(prDIS="NC", PolarizationDIS=0.3), names, pts)[0], H.real_ops(th, dict(prDIS="EM", PolarizationDIS=0.3), names, pts)[0])] for n in names), key=lambda t: t[0]))
+        # (b) positron P = electron -P
+        nb = ["F2_total", "FL_total", "F3_total"] + (["g1_total", "F3_charm"] if thorough else [])
+        for pol in (0.4,) + ((-1.0, 0.0) if thorough else ()):
+            H.bounded_ob(rep, f"C13/bounded/real run/{tag}/NC positron P={pol} = electron P={-pol} ({', '.join(nb)})", lambda pol=pol: max((H.ops_deviation(a[n], b[n]) for a, b in [(H.real_ops(th, dict(prDIS="NC", ProjectileDIS="positron", PolarizationDIS=pol), nb, pts)[0], H.real_ops(th, dict(prDIS="NC", ProjectileDIS="electron", PolarizationDIS=-pol), nb, pts)[0])] for n in nb), key=lambda t: t[0]))
+        # (c) charge conjugation in CC
+        for pa, pb in (("antineutrino", "neutrino"),) + ((("positron", "electron"),) if thorough else ()):
+            for tgt in ("proton",) + (("iron",) if thorough else ()):
+                for n in ["F2_total", "F3_total"] + (["FL_total", "F2_charm", "F3_charm"] if thorough else []):
+                    def fn(n=n, pa=pa, pb=pb, tgt=tgt):
+                        a, pids = H.real_ops(th, dict(prDIS="CC", ProjectileDIS=pa, TargetDIS=tgt), [n], pts)
+                        b, _ = H.real_ops(th, dict(prDIS="CC", ProjectileDIS=pb, TargetDIS=tgt), [n], pts)
+                        perm = [pids.index(-p if abs(p) <= 6 else p) for p in pids]
+                        sgn = -1.0 if n.startswith("F3") else 1.0
+                        return H.ops_deviation(a[n], b[n], lambda v: sgn * np.asarray(v)[perm])
+
+                    H.bounded_ob(rep, f"C13/bounded/real run/{tag}/CC {tgt}: {n}[{pa}][pid] = {'-' if n.startswith('F3') else '+'}{n}[{pb}][conj pid]", fn)
+        # (d) equal-charge quarks in a massless scheme
+        if scheme == "ZM-VFNS":
+            for pr in ("NC", "EM"):
+                for n in ["F2_total", "F2_light"] + (["FL_total", "F3_total"] if thorough and pr == "NC" else []):
+                    def fn(n=n, pr=pr):
+                        a, pids = H.real_ops(th, dict(prDIS=pr), [n], [pts[1]])  # Q2 above every threshold but top: nf = 5
+                        worst, where = 0.0, None
+                        for k, (v, _) in a[n][0].items():
+                            scale = max(1e-12, float(np.max(np.abs(v))))
+                            for grp in ((1, 3, 5), (2, 4), (-1, -3, -5), (-2, -4)):
+                                grp = [g for g in grp if abs(g) <= nf_ff]
+                                for g in grp[1:]:
+                                    d = float(np.max(np.abs(v[pids.index(g)] - v[pids.index(grp[0])]))) / scale
+                                    if d > worst:
+                                        worst, where = d, (k, g)
+                        return worst, where
+
+                    H.bounded_ob(rep, f"C13/bounded/real run/{tag}/{pr} {n}: rows of equal-charge active quarks coincide (d=s=b, u=c)", fn)
+
+
 def run(rep, tier, seed, only=None):
     rep.assume(
         "Z decoupling is read as eta_gammaZ -> 0 (MZ -> infinity at fixed Q2, sin2theta_w): proved as 'NC weight at eta=0 equals EM weight' plus 'eta*(MZ2+Q2) independent of MZ2'",
@@ -394,7 +444,7 @@ def run(rep, tier, seed, only=None):
         "A-np: numpy object-dtype arithmetic is the real reading of float64 arithmetic",
     )
     rep.stub("Combiner: eko nf_default -> enumerated nf (contract: C06)", "CouplingConstants.get_weight -> uninterpreted w (kernel-level lemmas)")
-    secs = [("decoupling", sec_decoupling), ("decouplingcard", sec_decoupling_via_card), ("positron", sec_positron), ("cc", sec_cc_conjugation), ("cctargets", sec_cc_conjugation_targets), ("flavour", sec_flavour_symmetry), ("tagged", sec_flavour_symmetry_tagged), ("xsconj", sec_xs_conjugation), ("svprojectors", sec_sv_projectors)]
+    secs = [("decoupling", sec_decoupling), ("decouplingcard", sec_decoupling_via_card), ("positron", sec_positron), ("cc", sec_cc_conjugation), ("cctargets", sec_cc_conjugation_targets), ("flavour", sec_flavour_symmetry), ("tagged", sec_flavour_symmetry_tagged), ("xsconj", sec_xs_conjugation), ("svprojectors", sec_sv_projectors), ("realruns", lambda r: sec_real_runs(r, tier))]
     for nm, f in secs:
         if only and only not in nm:
             continue
